@@ -76,7 +76,7 @@ class FS:
         fsize=os.fstat(s.f.fileno()).st_size-offset
         # implausible geometry is the superblock checker's business (e2fsck refuses such images); the reader gives no verdict
         if s.blocks*s.bs > fsize + s.bs or s.blocks<=s.first_data: raise Unsupported("blocks_count beyond the device")
-        if s.bpg>8*s.bs or s.ipg>8*s.bs or s.cpg>8*s.bs or s.bpg%8 or s.ipg%8: raise Unsupported("group geometry")
+        if s.bpg>8*s.bs*s.cratio or s.ipg>8*s.bs or s.cpg>8*s.bs or s.bpg%8 or s.ipg%8 or s.bpg!=s.cpg*s.cratio: raise Unsupported("group geometry")
         if s.rocompat&R_BIGALLOC and (s.log_cs<s.log_bs or s.log_cs-s.log_bs>16): raise Unsupported("cluster size")
         s.ngroups=(s.blocks - s.first_data + s.bpg-1)//s.bpg
         if s.ngroups>65536 or s.inodes!=s.ngroups*s.ipg: raise Unsupported("inode/group count mismatch")
